@@ -724,6 +724,8 @@ class Interp(ExprMixin):
         bt = None
         if isinstance(base_node, E.NameNode):
             bt = fr.ctypes.get(base_node.name)
+            if bt is None and base_node.name not in fr.locals:
+                bt = fr.module.gtypes.get(base_node.name)
         elif isinstance(base_node, E.AttributeNode) and isinstance(base_node.obj, E.NameNode) \
                 and base_node.obj.name == "self" and fr.cls is not None:
             bt = self.attr_ctype(fr.cls, base_node.attribute)
